@@ -134,6 +134,9 @@ func parseMethodLine(ctx *context, c *Converter, m *Method, value string) (err e
 	case "ignore":
 		fieldSetting = true
 		fields := strings.Fields(rest)
+		if len(fields) == 0 {
+			return fmt.Errorf("missing field name")
+		}
 		for _, f := range fields {
 			m.Field(f).Ignore = true
 		}
